@@ -8,6 +8,8 @@ spec = {"kind": "kitty"|"iterm2"|"block", "img": int, "upscale": bool,
 step = {"op": "draw", "layout": L} | {"op": "redraw"} | {"op": "draw_bad", "layout": L}
      | {"op": "clear"} | {"op": "stop"} | {"op": "start"}
      | {"op": "new", "slot": name, "spec": spec} | {"op": "del", "slot": name}
+     | {"op": "api", "slots": [name, ...], "now": bool}     the PUBLIC screen.clear_images(*widgets, now=now);
+                                                            no slots = all images
 L    = ["img", slot] | ["text", str] | ["fill", ch] | ["divider"]
      | ["pile", [[opt, L], ...]]      opt = "pack" | ["given", n] | ["weight", n]
      | ["cols", [[opt, L], ...]]      opt = ["given", n] | ["weight", n]
@@ -36,6 +38,11 @@ from urwid import canvas as ucanvas  # noqa: E402
 
 from term_image.image import BlockImage, ITerm2Image, KittyImage  # noqa: E402
 from term_image.widget import UrwidImage, UrwidImageCanvas, UrwidImageScreen  # noqa: E402
+from term_image.widget import _urwid as _urwid_mod  # noqa: E402
+
+# clear_images(now=True) writes straight to the terminal device (write_tty): captured here
+TTY = io.BytesIO()
+_urwid_mod.write_tty = TTY.write
 
 urwid.set_encoding("utf-8")
 tests.set_cell_size((2, 4))
@@ -241,6 +248,15 @@ class Case:
                     del w
             elif op == "del":
                 self.slots.pop(st["slot"], None)
+            elif op == "api":
+                ws = [self.slots[n] for n in st.get("slots", []) if n in self.slots]
+                res["api"] = [[w._verif_serial, w._verif_kind, getattr(w, "_ti_z_index", None)] for w in ws]
+                res["api_all"] = not st.get("slots")
+                if st.get("slots") and not ws:
+                    res["api_skipped"] = True   # every named widget is gone: no arguments would mean "all"
+                else:
+                    self.screen.clear_images(*ws, now=bool(st.get("now")))
+                del ws
             elif op in ("draw", "draw_bad", "redraw"):
                 if op == "redraw":
                     canv = self.last_canvas
@@ -267,6 +283,9 @@ class Case:
             import traceback
             res["abort"] = type(e).__name__ + ": " + str(e)[:200] + " | " + traceback.format_exc()[-600:]
         res["out"] = self.take_output()
+        res["tty"] = TTY.getvalue().decode("utf-8", "replace")
+        TTY.seek(0)
+        TTY.truncate()
         self.observe(res)
         return res
 
